@@ -72,6 +72,20 @@ fn process_line(line: &str, long_lived: &swc_core::common::Globals) -> Value {
 }
 
 fn main() {
+    // The pipeline's downstream passes (hygiene, fixer, codegen) recurse over the visitor's
+    // output, which is ~7x deeper than the JSX input; run everything on a 128 MB stack so that
+    // legitimately deep inputs (nesting bound 512) are inside the domain. Unbounded recursion
+    // (cyclic types) still overflows it deterministically and is reported as an abort.
+    let child = std::thread::Builder::new()
+        .stack_size(128 << 20)
+        .spawn(real_main)
+        .expect("spawn");
+    if child.join().is_err() {
+        std::process::exit(101);
+    }
+}
+
+fn real_main() {
     install_panic_hook();
     let args: Vec<String> = std::env::args().collect();
     let long_lived = swc_core::common::Globals::new();
